@@ -2,7 +2,7 @@
 From Coq Require Import NArith ZArith List Bool Lia.
 From QV.Base Require Import Res Bytes.
 From QV.Str Require Import StrModel StrSpec StrBase.
-From QV.Str Require Export StrTrimProofs StrMiscProofs StrReplaceProofs StrTokProofs.
+From QV.Str Require Export StrTrimProofs StrMiscProofs StrReplaceProofs StrTokProofs StrCommaProofs.
 Import ListNotations.
 Local Open Scope N_scope.
 
